@@ -103,12 +103,17 @@ type directive struct {
 	Ctl  bool   `json:"ctl,omitempty"`
 	// SkipBase: rule 1 of the base set carries skip:2, so that a removed rule inside the skip window is observable
 	SkipBase bool `json:"skip_base,omitempty"`
+	// SkipAfterBase: rule 1 carries skipAfter:MID (the marker in front of rule 3)
+	SkipAfterBase bool `json:"skipafter_base,omitempty"`
 }
 
 func (d directive) base() []ruleD {
 	b := base()
 	if d.SkipBase {
 		b[0].Extra = append(b[0].Extra, "skip:2") // window = the marker in front of rule 3 and one rule
+	}
+	if d.SkipAfterBase {
+		b[0].Extra = append(b[0].Extra, "skipAfter:MID") // resumes at rule 3, whatever was removed in between
 	}
 	return b
 }
@@ -197,6 +202,8 @@ func directives(thorough bool) []directive {
 	var ds []directive
 	idForms := []string{"2", "2 3", "2-3", "1 3-4", "4", "4 5"}
 	ds = append(ds, directive{Kind: "removeById", IDs: "2", SkipBase: true}, directive{Kind: "removeByTag", Tag: "t1", SkipBase: true})
+	ds = append(ds, directive{Kind: "removeById", IDs: "2", SkipAfterBase: true}, directive{Kind: "removeByMsg", Msg: "m2", SkipAfterBase: true},
+		directive{Kind: "removeById", IDs: "2-3", SkipAfterBase: true}, directive{Kind: "updateTargetById", IDs: "3", Arg: "!ARGS:a", SkipAfterBase: true})
 	for _, ids := range idForms {
 		ds = append(ds, directive{Kind: "removeById", IDs: ids})
 		for _, tgt := range []string{"!ARGS:a", "!ARGS:/^b/", "ARGS:c", "!ARGS:B"} {
@@ -393,6 +400,9 @@ func (d directive) sig() string {
 	}
 	if d.SkipBase {
 		s += ":inside-skip-window"
+	}
+	if d.SkipAfterBase {
+		s += ":before-skipAfter-marker"
 	}
 	form := "single"
 	switch {
